@@ -13,6 +13,7 @@ CONSTANTS
   NumGadgets = 6
   MaxScale = 4194304
   MaxOuter = 6
+  Bug = "none"
   ActVec <- VecDistinct
 INVARIANT EvalWithinBudget
 INVARIANT StopMeansStable
